@@ -1,7 +1,7 @@
 (* C16 — the BER decoder is safe on arbitrary bytes: error or value, never a
    panic, never an out-of-range access, always terminating. *)
 From Coq Require Import List ZArith Bool.
-From Verif Require Import Common.Outcome Common.Bytes Ber.Model Ber.Safety Ber.WrongType.
+From Verif Require Import Common.Outcome Common.Bytes Ber.Model Ber.X690 Ber.ParseHdr Ber.Safety Ber.WrongType.
 Import ListNotations.
 Open Scope Z_scope.
 
@@ -33,6 +33,21 @@ Proof.
   split; [apply dec_zero_length_bool, H | apply dec_zero_length_bits, H].
 Qed.
 Print Assumptions C16_zero_length_primitives.
+
+(* truncated input, in general: a header that cannot be read, or a declared length that runs past
+   the end of the data -- in any header form, with any tag number, through pointers -- is an error;
+   in particular a value cut off anywhere inside its contents *)
+Theorem C16_truncated_is_error : forall t p bs,
+  (parse_tl bs = Err \/ exists tl off, parse_tl bs = Ok (tl, off) /\ off + t_len tl > zlen bs) ->
+  dec t p bs = Err.
+Proof. exact dec_truncated. Qed.
+Print Assumptions C16_truncated_is_error.
+
+Theorem C16_cut_inside_contents : forall t p c k tn len content,
+  cls_ok c -> 0 <= tn < 2 ^ 63 -> 0 <= len < 2 ^ 32 -> zlen content < len ->
+  dec t p (hdr c k tn len ++ content) = Err.
+Proof. exact dec_cut_content. Qed.
+Print Assumptions C16_cut_inside_contents.
 
 (* truncated header / long-form length running past the end *)
 Example C16_truncated : dec TInt p0 [2] = Err /\ dec TInt p0 [2; 130; 1] = Err /\
